@@ -58,6 +58,20 @@ class ProgGen:
                 k = len(self.env)
                 self.env.append([1, False])
                 self.ongoing[k] = [0, name]
+            # a second FSM, sharing state names with the first; it is nested inside a State of the first one when
+            # possible (m.next must then bind to the innermost FSM), otherwise placed beside it
+            if d(INT(0, 1)) == 0:
+                ns2 = d(INT(1, 4))
+                states2 = [f"S{i}" for i in range(ns2)]
+                fs2 = {"dom": PICK(d, (list(sync_domains))), "states": list(d(st.permutations(states2))),
+                       "init": PICK(d, [None] + states2), "name": PICK(d, (["fsm", "inner"])),
+                       "early_ongoing": d(BOOL)}
+                self.fsms.append(fs2)
+                if d(BOOL):
+                    k = len(self.env)
+                    self.env.append([1, False])
+                    self.ongoing[k] = [1, PICK(d, states2)]
+        self.nested_placed = False
 
     # ---- expressions ---------------------------------------------------------------------
     def readable(self, level):
@@ -166,7 +180,12 @@ class ProgGen:
             kinds += ["if", "if", "switch", "switch"]
         if fsm is not None:
             kinds += ["next"]
+        if fsm == 0 and len(self.fsms) > 1 and not self.nested_placed and depth > 0:
+            kinds += ["nfsm", "nfsm", "nfsm"]
         k = PICK(d, (kinds))
+        if k == "nfsm":
+            self.nested_placed = True
+            return ["fsm", 1, [[name, self.body(level, depth - 1, fsm=1)] for name in self.fsms[1]["states"]]]
         if k == "assign":
             return self.assign(level)
         if k == "next":
@@ -206,6 +225,9 @@ class ProgGen:
                 body.append(self.fsm_stmt(level, 0))
             else:
                 body += self.body(level, self.depth, maxn=2)
+        if len(self.fsms) > 1 and not self.nested_placed:
+            self.nested_placed = True
+            body.append(self.fsm_stmt(PICK(d, ([1, 2])), 1))
         return {"env": self.env, "inputs": self.inputs, "dom": {str(k): v for k, v in self.dom.items()},
                 "init": {str(k): v for k, v in self.init.items()}, "rl": self.rl, "fsms": self.fsms,
                 "ongoing": {str(k): v for k, v in self.ongoing.items()}, "body": body}
